@@ -541,7 +541,37 @@ def bits(v):
     return np.ascontiguousarray(np.asarray(v, dtype=float)).tobytes()
 
 
-def solve_all(ctx, g, hist, generic, tag):
+class Ledger:
+    """every array ever returned by a solver in one history: kept alive, with its bits at return
+    time; re-judged after every later call (must be bitwise unchanged), and checked for shared
+    memory with the game's own arrays and with every earlier returned array"""
+
+    def __init__(self):
+        self.items = []     # (array, bits at return, label)
+
+    def add(self, ctx, arrays, label, owners, rep):
+        for a in arrays:
+            a = np.asarray(a)
+            for o in owners:
+                if np.shares_memory(a, o):
+                    ctx.spec_fail("alias_result_vs_game", "%s returned an array that shares memory with the game's "
+                                  "payoff arrays" % label, rep)
+            for (b, _, lb) in self.items[-60:]:
+                if b is not a and np.shares_memory(a, b):
+                    ctx.spec_fail("alias_result_vs_earlier_result", "%s returned an array that shares memory with an "
+                                  "array returned earlier by %s" % (label, lb), rep)
+            self.items.append((a, a.tobytes(), label))
+        ctx.count("ledger:arrays-kept", len(arrays))
+
+    def verify(self, ctx, after, rep):
+        for (a, b0, label) in self.items:
+            if a.tobytes() != b0:
+                ctx.spec_fail("history_earlier_result_changed", "a result returned earlier by %s was modified by a "
+                              "later call (%s)" % (label, after), rep)
+                return
+
+
+def solve_all(ctx, g, hist, generic, tag, ledger=None):
     """Run the four solvers on the game object `g` as it is NOW. Everything is judged against the
     payoffs read fresh from the object: exact Nash oracle, agreement with a freshly built game
     with the same payoffs (solvers are functions of the payoffs only), solve twice = same,
@@ -563,6 +593,14 @@ def solve_all(ctx, g, hist, generic, tag):
     def prof_bits(L):
         return [(bits(x), bits(y)) for x, y in L]
 
+    if ledger is None:
+        ledger = Ledger()
+    owners = [g.players[0].payoff_array, g.players[1].payoff_array]
+
+    def keep(L, label):
+        ledger.add(ctx, [a for xy in L for a in xy], label, owners, rep)
+        ledger.verify(ctx, label, rep)
+
     def judge(name, L, complete_ok=True):
         for x, y in L:
             why = nash_defect(FA, FB, F(x), F(y))
@@ -575,6 +613,7 @@ def solve_all(ctx, g, hist, generic, tag):
     se1 = support_enumeration(g); untouched("support_enumeration")
     se2 = support_enumeration(g)
     sef = support_enumeration(fresh)
+    keep(se1, "support_enumeration"); keep(se2, "support_enumeration")
     judge("support_enumeration", se1)
     if prof_bits(se1) != prof_bits(se2) or prof_bits(se1) != prof_bits(sef):
         ctx.spec_fail("history_support_enumeration_state", "support_enumeration depends on the object's history "
@@ -586,6 +625,7 @@ def solve_all(ctx, g, hist, generic, tag):
             ve1 = vertex_enumeration(g); untouched("vertex_enumeration")
             ve2 = vertex_enumeration(g)
             vef = vertex_enumeration(fresh)
+            keep(ve1, "vertex_enumeration"); keep(ve2, "vertex_enumeration")
             judge("vertex_enumeration", ve1)
             if prof_bits(ve1) != prof_bits(ve2) or prof_bits(ve1) != prof_bits(vef):
                 ctx.spec_fail("history_vertex_enumeration_state", "vertex_enumeration depends on the object's "
@@ -602,6 +642,9 @@ def solve_all(ctx, g, hist, generic, tag):
             NE, res = lemke_howson(g, init_pivot=ip, capping=cap, max_iter=500, full_output=True)
             untouched("lemke_howson")
             NEf, resf = lemke_howson(fresh, init_pivot=ip, capping=cap, max_iter=500, full_output=True)
+            keep([NE], "lemke_howson")
+            if not (res.NE[0] is NE[0] or bits(res.NE[0]) == bits(NE[0])):
+                ctx.spec_fail("lemke_howson_result_object", "NashResult.NE differs from the returned NE", rep)
             if res.converged:
                 judge("lemke_howson", [NE])
             if prof_bits([NE]) != prof_bits([NEf]) or (res.converged, res.num_iter, res.init) != \
@@ -610,6 +653,7 @@ def solve_all(ctx, g, hist, generic, tag):
     # pure equilibria
     got = pure_nash_brute(g); untouched("pure_nash_brute")
     gotf = pure_nash_brute(fresh)
+    ledger.verify(ctx, "pure_nash_brute", rep)
     if got != gotf or got != pure_nash_brute(g):
         ctx.spec_fail("history_pure_nash_state", "pure_nash_brute depends on the object's history", rep)
     d, ft = Fraction(1, 10 ** 12), Fraction(1e-8)
@@ -631,6 +675,7 @@ def history_run(ctx, count):
         val = (lambda: rng.gauss(0, 1)) if generic else (lambda: float(rng.randint(-2, 3)))
         m, n = rng.randint(2, 4), rng.randint(2, 4)
         hist = []
+        ledger = Ledger()
         how = "stengel" if h == 0 else rng.choice(["arrays", "staged", "delete", "stengel"])
         if how == "stengel":
             m, n, generic = 3, 2, False
@@ -654,7 +699,7 @@ def history_run(ctx, count):
                 v = (val(), val())
                 g[i, j] = v
                 hist.append(["setitem", i, j, v[0], v[1]])
-            solve_all(ctx, g, list(hist), False, "half-filled")
+            solve_all(ctx, g, list(hist), False, "half-filled", ledger)
             for (i, j) in cells[half:]:
                 v = (val(), val())
                 g[i, j] = v
@@ -666,18 +711,18 @@ def history_run(ctx, count):
             B0 = np.array([[val() for _ in range(m + 1)] for _ in range(n + 1)])
             parent = mk_game(A0, B0)
             hist.append(["arrays", A0.tolist(), B0.tolist()])
-            solve_all(ctx, parent, list(hist), generic, "parent")
+            solve_all(ctx, parent, list(hist), generic, "parent", ledger)
             before = [(bits(x), bits(y)) for x, y in support_enumeration(parent)]
             a0, a1 = rng.randrange(m + 1), rng.randrange(n + 1)
             g = parent.delete_action(0, a0).delete_action(1, a1)
             hist.append(["delete_action", 0, a0, 1, a1])
-            solve_all(ctx, g, list(hist), generic, "child")
+            solve_all(ctx, g, list(hist), generic, "child", ledger)
             if [(bits(x), bits(y)) for x, y in support_enumeration(parent)] != before or \
                     bits(parent.players[0].payoff_array) != bits(A0):
                 ctx.spec_fail("history_delete_action_parent", "delete_action / solving the child changed the parent",
                               {"history": hist})
         ctx.count("hist:" + how)
-        solve_all(ctx, g, list(hist), generic and how != "stengel", "built")
+        solve_all(ctx, g, list(hist), generic and how != "stengel", "built", ledger)
         for step in range(rng.randint(1, 3)):
             kind = rng.choice(["setitem", "inplace0", "inplace1", "setitem-many"]) if how != "stengel" or step else "setitem"
             if how == "stengel" and step == 0:
@@ -705,7 +750,226 @@ def history_run(ctx, count):
                 g.players[1].payoff_array[j, i] = v
                 hist.append(["players[1].payoff_array", j, i, v])
             ctx.count("hist:mutation:" + kind)
-            solve_all(ctx, g, list(hist), generic and how != "stengel", "after-mutation-%d" % (step + 1))
+            solve_all(ctx, g, list(hist), generic and how != "stengel", "after-mutation-%d" % (step + 1), ledger)
+
+
+def interleave_run(ctx, count):
+    """the generator versions, consumed alternately for two different games in one process, give
+    what the list versions give (no buffer shared between live generators)"""
+    from quantecon.game_theory import (support_enumeration, vertex_enumeration, pure_nash_brute)
+    from quantecon.game_theory.support_enumeration import support_enumeration_gen
+    from quantecon.game_theory.vertex_enumeration import vertex_enumeration_gen
+    from quantecon.game_theory.pure_nash import pure_nash_brute_gen
+    rng = ctx.rng
+    for _ in range(count):
+        games = []
+        for _g in range(2):
+            m, n = rng.randint(2, 4), rng.randint(2, 4)
+            A = np.array([[float(rng.randint(-3, 3)) + (rng.random() if _g else 0) for _ in range(n)] for _ in range(m)])
+            B = np.array([[float(rng.randint(-3, 3)) + (rng.random() if _g else 0) for _ in range(m)] for _ in range(n)])
+            games.append(mk_game(A, B))
+        rep = {"games": [[g.players[0].payoff_array.tolist(), g.players[1].payoff_array.tolist()] for g in games]}
+        for name, lst, gen, conv in (
+                ("support_enumeration", support_enumeration, support_enumeration_gen, lambda L: [(bits(x), bits(y)) for x, y in L]),
+                ("vertex_enumeration", vertex_enumeration, vertex_enumeration_gen, lambda L: [(bits(x), bits(y)) for x, y in L]),
+                ("pure_nash_brute", pure_nash_brute, pure_nash_brute_gen, lambda L: [tuple(int(t) for t in a) for a in L])):
+            try:
+                want = [conv(lst(g)) for g in games]
+                its = [gen(g) for g in games]
+                got = [[], []]
+                live = [True, True]
+                while any(live):
+                    for k in (0, 1):
+                        if live[k]:
+                            try:
+                                got[k].append(next(its[k]))
+                            except StopIteration:
+                                live[k] = False
+                got = [conv(L) for L in got]
+            except Exception as e:   # Qhull on a degenerate game
+                if type(e).__name__ == "QhullError":
+                    ctx.count("interleave:QhullError")
+                    continue
+                raise
+            if got != want:
+                ctx.spec_fail("interleaved_generators_" + name, "%s_gen consumed alternately for two games differs "
+                              "from the list version" % name, rep)
+            ctx.count("interleave:" + name)
+
+
+INT_TYPES = [int, np.int8, np.int16, np.int32, np.int64, np.uint8, np.uint16, np.uint32, np.uint64, np.intp, bool]
+
+
+def forms_run(ctx):
+    """ARGUMENT FORMS: the same game / the same scalars handed over in every accepted form must give
+    bit-identical answers (and the exact oracle must accept them)."""
+    from quantecon.game_theory import (NormalFormGame, Player, lemke_howson, support_enumeration,
+                                       vertex_enumeration, pure_nash_brute)
+    import scipy.spatial
+    rng = ctx.rng
+
+    def results(g, m, n):
+        out = {"se": [(bits(x), bits(y)) for x, y in support_enumeration(g)],
+               "pn": pure_nash_brute(g), "pn0": pure_nash_brute(g, tol=0.0)}
+        if m >= 2 and n >= 2:
+            try:
+                out["ve"] = [(bits(x), bits(y)) for x, y in vertex_enumeration(g)]
+            except scipy.spatial.QhullError:
+                out["ve"] = "QhullError"
+        for ip in (0, m + n - 1):
+            for cap in (None, 2):
+                NE, res = lemke_howson(g, init_pivot=ip, capping=cap, max_iter=500, full_output=True)
+                out["lh", ip, cap] = (bits(NE[0]), bits(NE[1]), bool(res.converged), int(res.num_iter), int(res.init))
+        return out
+
+    shapes = [(3, 2), (1, 3), (3, 1), (1, 1), (2, 2), (4, 3)]
+    if not ctx.thorough:
+        shapes = shapes[:4] + [rng.choice(shapes[4:])]
+    for (m, n) in shapes:
+        # integer-valued payoffs: exact in every dtype
+        A = np.array([[float(rng.randint(-3, 4)) for _ in range(n)] for _ in range(m)])
+        B = np.array([[float(rng.randint(-3, 4)) for _ in range(m)] for _ in range(n)])
+        if (m, n) == (3, 2):
+            A = np.array([[3., 3.], [2., 5.], [0., 6.]]); B = np.array([[3., 2., 3.], [2., 6., 1.]])
+        rep0 = {"A": A.tolist(), "B": B.tolist()}
+        canon = mk_game(A.copy(), B.copy())
+        want = results(canon, m, n)
+        FA, FB = FM(A), FM(B)
+        for x, y in support_enumeration(canon):
+            why = nash_defect(FA, FB, F(x), F(y))
+            if why:
+                ctx.spec_fail("support_enumeration", "not Nash: " + why, rep0)
+
+        def pad(X):
+            big = np.zeros((2 * X.shape[0] + 1, 3 * X.shape[1] + 2))
+            big[1::2, 2::3] = X
+            return big[1::2, 2::3]
+        bim = [[(A[i, j], B[j, i]) for j in range(n)] for i in range(m)]
+        arr3 = np.array(bim, dtype=float)
+        variants = {
+            "Player(list)": lambda: NormalFormGame((Player(A.tolist()), Player(B.tolist()))),
+            "Player(tuple)": lambda: NormalFormGame((Player(tuple(map(tuple, A.tolist()))), Player(tuple(map(tuple, B.tolist()))))),
+            "Player(int64)": lambda: NormalFormGame((Player(A.astype(np.int64)), Player(B.astype(np.int64)))),
+            "Player(int32)": lambda: NormalFormGame((Player(A.astype(np.int32)), Player(B.astype(np.int32)))),
+            "Player(float32)": lambda: NormalFormGame((Player(A.astype(np.float32)), Player(B.astype(np.float32)))),
+            "Player(F-order)": lambda: NormalFormGame((Player(np.asfortranarray(A)), Player(np.asfortranarray(B)))),
+            "Player(strided view)": lambda: NormalFormGame((Player(pad(A)), Player(pad(B)))),
+            "Player(reversed view)": lambda: NormalFormGame((Player(A[::-1, ::-1].copy()[::-1, ::-1]), Player(B[::-1, ::-1].copy()[::-1, ::-1]))),
+            "Player(transposed view)": lambda: NormalFormGame((Player(A.T.copy().T), Player(B.T.copy().T))),
+            "list of Players": lambda: NormalFormGame([Player(A.copy()), Player(B.copy())]),
+            "bimatrix nested lists": lambda: NormalFormGame(bim),
+            "ndarray (m,n,2) C": lambda: NormalFormGame(arr3.copy()),
+            "ndarray (m,n,2) F": lambda: NormalFormGame(np.asfortranarray(arr3)),
+            "ndarray (m,n,2) int": lambda: NormalFormGame(arr3.astype(np.int64)),
+            "ndarray (m,n,2) float32": lambda: NormalFormGame(arr3.astype(np.float32)),
+            "ndarray (m,n,2) strided": lambda: NormalFormGame(np.repeat(arr3, 2, axis=1)[:, ::2, :]),
+        }
+        if not ctx.thorough:
+            keep = ["Player(list)", "Player(int64)", "Player(float32)", "Player(F-order)", "Player(strided view)",
+                    "Player(transposed view)", "bimatrix nested lists", "ndarray (m,n,2) F", "ndarray (m,n,2) strided"]
+            if (m, n) != (3, 2):
+                keep = rng.sample(keep, 4)
+            variants = {k: variants[k] for k in keep}
+        for name, build in variants.items():
+            gv = build()
+            inputs = (bits(A), bits(B))
+            got = results(gv, m, n)
+            ctx.count("forms:game-variant")
+            if got != want:
+                diff = [k for k in want if got.get(k) != want[k]]
+                ctx.spec_fail("argument_form_game", "game built as %s gives different answers than the same payoffs as "
+                              "C-ordered float64 arrays, in %s" % (name, diff), dict(rep0, form=name))
+            if (bits(A), bits(B)) != inputs:
+                ctx.spec_fail("argument_form_input_modified", "inputs modified for form " + name, dict(rep0, form=name))
+
+        # scalars of lemke_howson
+        base = dict(init_pivot=min(1, m + n - 1), max_iter=100, capping=2)
+        NE0, res0 = lemke_howson(canon, full_output=True, **base)
+        ref = (bits(NE0[0]), bits(NE0[1]), bool(res0.converged), int(res0.num_iter), int(res0.init))
+        # (every distinct triple of scalar types is one more Numba specialisation: the quick tier uses a
+        #  fixed small set so that the on-disk cache stays warm; the thorough tier uses all of them)
+        if ctx.thorough:
+            combos = [(T, arg) for T in INT_TYPES for arg in ("init_pivot", "max_iter", "capping")]
+        elif (m, n) == (3, 2):
+            combos = [(np.int32, "init_pivot"), (np.uint8, "init_pivot"), (np.uint64, "init_pivot"), (bool, "init_pivot"),
+                      (np.intp, "init_pivot"), (np.int32, "max_iter"), (np.uint8, "capping")]
+        else:
+            combos = [(np.int32, "init_pivot"), (np.uint64, "init_pivot"), (np.uint8, "capping")]
+        for (T, arg) in combos:
+            if True:
+                kw = dict(base)
+                if T is bool and arg != "init_pivot":
+                    continue        # True == 1 is a different, legal value of max_iter / capping
+                kw[arg] = T(kw[arg])
+                ctx.count("forms:lh-scalar")
+                try:
+                    NE, res = lemke_howson(canon, full_output=True, **kw)
+                    got = (bits(NE[0]), bits(NE[1]), bool(res.converged), int(res.num_iter), int(res.init))
+                except Exception as e:
+                    got = "ERR:" + type(e).__name__
+                if got != ref:
+                    key = "lemke_howson_%s_as_%s" % (arg, T.__name__)
+                    msg = "lemke_howson(%s=%s(%d)) -> %s, with a Python int -> ok" % (arg, T.__name__, base[arg], got if isinstance(got, str) else "different result")
+                    if isinstance(got, str) and key not in ctx.known:
+                        # the CLEAN code mishandles this legal form: counted until listed
+                        ctx.count("unlisted-finding:" + key)
+                        ctx.extra.setdefault("unlisted_findings", {})[key] = dict(rep0, what=msg, **{arg: "%s(%d)" % (T.__name__, base[arg])})
+                    else:
+                        ctx.spec_fail(key, msg, dict(rep0, **{k: str(v) for k, v in kw.items()}))
+        # optional arguments: omitted / None / positional / keyword; full_output forms
+        ip = base["init_pivot"]
+        alts = [lemke_howson(canon, ip), lemke_howson(canon, init_pivot=ip), lemke_howson(canon, ip, 10 ** 6),
+                lemke_howson(canon, ip, 10 ** 6, None), lemke_howson(canon, ip, capping=None),
+                lemke_howson(canon, ip, 10 ** 6, None, False), lemke_howson(canon, ip, full_output=False),
+                lemke_howson(canon, ip, full_output=0), lemke_howson(canon, ip, full_output=np.bool_(False)),
+                lemke_howson(canon, ip, full_output=True)[0], lemke_howson(canon, ip, full_output=1)[0],
+                lemke_howson(canon, ip, 10 ** 6, None, True)[0], lemke_howson(canon, ip, full_output=np.bool_(True))[0]]
+        if len(set((bits(a[0]), bits(a[1])) for a in alts)) != 1:
+            ctx.spec_fail("argument_form_lh_optional", "lemke_howson: omitted / None / positional / keyword forms of the "
+                          "optional arguments disagree", rep0)
+        if ip == 0:
+            if (bits(lemke_howson(canon)[0]), bits(lemke_howson(canon)[1])) != (bits(alts[0][0]), bits(alts[0][1])):
+                ctx.spec_fail("argument_form_lh_optional", "lemke_howson(g) differs from lemke_howson(g, 0)", rep0)
+        # tol of pure_nash_brute
+        p0 = pure_nash_brute(canon, tol=0.0)
+        for t in (0, 0.0, np.float32(0), np.float64(0), np.array(0.0), np.int8(0), np.uint8(0), False):
+            if pure_nash_brute(canon, tol=t) != p0 or pure_nash_brute(canon, t) != p0:
+                ctx.spec_fail("argument_form_pure_nash_tol", "pure_nash_brute(tol=%r) differs from tol=0.0" % (t,), rep0)
+        pd = pure_nash_brute(canon)
+        for t in (None, 1e-8, np.float64(1e-8), np.array(1e-8)):
+            if pure_nash_brute(canon, tol=t) != pd or pure_nash_brute(canon, t) != pd:
+                ctx.spec_fail("argument_form_pure_nash_tol", "pure_nash_brute(tol=%r) differs from the default" % (t,), rep0)
+        # exact check with tol = 0 and a tiny tol
+        for t in (0.0, 5e-324, 1.0):
+            got = set(tuple(int(v) for v in a) for a in pure_nash_brute(canon, tol=t))
+            for i in range(m):
+                for j in range(n):
+                    gain = max(max(FA[k][j] for k in range(m)) - FA[i][j], max(FB[k][i] for k in range(n)) - FB[j][i])
+                    if (gain <= Fraction(t)) != ((i, j) in got):     # integer payoffs: no rounding involved
+                        ctx.spec_fail("pure_nash_tol_boundary", "pure_nash_brute(tol=%r) wrong at %s (gain %s)" % (t, (i, j), gain), rep0)
+        # explicit zero tolerance on payoffs that differ by less than the default tolerance
+        eps = 2.0 ** -40
+        At = A.copy(); At[0, 0] = At[m - 1, 0] + (eps if m > 1 else 0.0)
+        Bt = B.copy(); Bt[0, 0] = Bt[n - 1, 0] - (eps if n > 1 else 0.0)
+        gt = mk_game(At, Bt)
+        FAt, FBt = FM(At), FM(Bt)
+        for t in (0, 0.0, np.float64(0), None, 1e-8, 2.0 ** -41, 2.0 ** -39):
+            tv = Fraction(1e-8 if t is None else float(t))
+            got = set(tuple(int(v) for v in a) for a in pure_nash_brute(gt, tol=t))
+            for i in range(m):
+                for j in range(n):
+                    gain = max(max(FAt[k][j] for k in range(m)) - FAt[i][j], max(FBt[k][i] for k in range(n)) - FBt[j][i])
+                    if abs(gain - tv) > Fraction(1, 10 ** 15) or tv == 0:
+                        if (gain <= tv) != ((i, j) in got):
+                            ctx.spec_fail("pure_nash_tol_small_gap", "pure_nash_brute(tol=%r) wrong at %s: gain %.3e"
+                                          % (t, (i, j), float(gain)), {"A": At.tolist(), "B": Bt.tolist(), "tol": repr(t)})
+        # vertex_enumeration's optional argument
+        if m >= 2 and n >= 2 and want.get("ve") != "QhullError":
+            for call in (lambda: vertex_enumeration(canon, None), lambda: vertex_enumeration(canon, qhull_options=None)):
+                if [(bits(x), bits(y)) for x, y in call()] != want["ve"]:
+                    ctx.spec_fail("argument_form_ve_optional", "vertex_enumeration: omitted / None / keyword forms of "
+                                  "qhull_options disagree", rep0)
+        ctx.count("forms:base-games")
 
 
 # ----------------------------------------------------------------------------
@@ -769,6 +1033,8 @@ def run(ctx):
 
     # solve / mutate / solve histories on one game object
     history_run(ctx, ctx.n(30, 300))
+    interleave_run(ctx, ctx.n(6, 60))
+    forms_run(ctx)
 
     # pure equilibria
     for _ in range(ctx.n(150, 3000)):
